@@ -78,7 +78,12 @@ def check(ctx):
     # right-hand side of each step is the previous level (no extra clipping)
     rhs_rule(ctx, "C02-b")
     # ---- C02-d/e flux stencil and time quadrature
-    n = flux_mode(ctx, "C02-d") + flux_mode(ctx, "C02-d", "SinglePhaseReservoir")
+    from .recovery import scale_rule
+
+    n = 0
+    for cls in ("IdealReservoir", "SinglePhaseReservoir", "TwoPhaseReservoir"):
+        n += flux_mode(ctx, "C02-d", cls)
+        scale_rule(ctx, "C02-g", cls)
     ctx.floor("C02-d", n, 1, "flux-mode recovery paths")
     # ---- C02-f/g scales
     fvf_and_alpha(ctx, "C02-f")
